@@ -679,8 +679,49 @@ Proof.
 Qed.
 
 (* the (index, parameter) pairs split really uses, and the parameters of segment i *)
-Definition split_pairs (idx : list nat) (nodes : list Q) : list (nat * Q) :=
-  filter (fun iu : nat * Q => negb (near01 (snd iu))) (sort_by pair_le (combine idx nodes)).
+(* [split_pairs] (Model/Jordan.v): sorted, filtered at the ends, near-repeated nodes dropped *)
+Lemma drop_repeated_from_In : forall l prev x, In x (drop_repeated_from prev l) -> In x l.
+Proof.
+  induction l as [|p t IH]; intros prev x H; cbn [drop_repeated_from] in H; [exact H|].
+  destruct (Nat.eqb (fst prev) (fst p) && Qlt_bool (Qabs' (snd p - snd prev)) tol6).
+  - right. eapply IH. exact H.
+  - destruct H as [<-|H]; [left; reflexivity|right; eapply IH; exact H].
+Qed.
+Lemma drop_repeated_In : forall l x, In x (drop_repeated l) -> In x l.
+Proof.
+  intros [|p t] x H; [exact H|]. cbn [drop_repeated] in H.
+  destruct H as [<-|H]; [left; reflexivity|right; eapply drop_repeated_from_In; exact H].
+Qed.
+Lemma drop_repeated_from_SS : forall {R : nat * Q -> nat * Q -> Prop} l prev,
+  StronglySorted R l -> StronglySorted R (drop_repeated_from prev l).
+Proof.
+  intros R. induction l as [|p t IH]; intros prev H; cbn [drop_repeated_from]; [constructor|].
+  inversion H as [|? ? Ht Hp]; subst.
+  destruct (Nat.eqb (fst prev) (fst p) && Qlt_bool (Qabs' (snd p - snd prev)) tol6).
+  - apply IH. exact Ht.
+  - constructor; [apply IH; exact Ht|].
+    rewrite Forall_forall in *. intros x Hx. apply Hp. eapply drop_repeated_from_In. exact Hx.
+Qed.
+Lemma drop_repeated_SS : forall {R : nat * Q -> nat * Q -> Prop} l,
+  StronglySorted R l -> StronglySorted R (drop_repeated l).
+Proof.
+  intros R [|p t] H; [constructor|]. cbn [drop_repeated]. inversion H as [|? ? Ht Hp]; subst.
+  constructor; [apply drop_repeated_from_SS; exact Ht|].
+  rewrite Forall_forall in *. intros x Hx. apply Hp. eapply drop_repeated_from_In. exact Hx.
+Qed.
+Lemma split_pairs_SS : forall idx nodes,
+  StronglySorted (fun x y => pair_le x y = true) (split_pairs idx nodes).
+Proof.
+  intros. unfold split_pairs. apply drop_repeated_SS.
+  apply filter_SS. apply sort_by_SS; [apply pair_le_total|apply pair_le_trans].
+Qed.
+Lemma split_pairs_In : forall idx nodes iu, In iu (split_pairs idx nodes) ->
+  In iu (combine idx nodes) /\ near01 (snd iu) = false.
+Proof.
+  intros idx nodes iu H. unfold split_pairs in H. apply drop_repeated_In in H.
+  apply filter_In in H. destruct H as [H Hn]. apply negb_true_iff in Hn.
+  apply sort_by_In in H. tauto.
+Qed.
 Definition split_nodes (idx : list nat) (nodes : list Q) (i : nat) : list Q :=
   nodes_of (split_pairs idx nodes) i.
 
@@ -702,20 +743,14 @@ Proof.
   destruct H as [->|H]; [left; reflexivity|right; apply IH; exact H].
 Qed.
 
-(* the parameters of segment i are exactly the requested ones, except those
-   within 1e-6 of an end *)
+(* the parameters of segment i are requested ones, none within 1e-6 of an end *)
 Lemma split_nodes_In : forall idx nodes i t,
-  In t (split_nodes idx nodes i) <-> In (i, t) (combine idx nodes) /\ near01 t = false.
+  In t (split_nodes idx nodes i) -> In (i, t) (combine idx nodes) /\ near01 t = false.
 Proof.
-  intros idx nodes i t. unfold split_nodes, nodes_of, split_pairs. rewrite in_map_iff. split.
-  - intros ([k u] & Hu & H). cbn [snd] in Hu. subst u.
-    apply filter_In in H. destruct H as [H Hk]. cbn [fst] in Hk. apply Nat.eqb_eq in Hk. subst k.
-    apply filter_In in H. destruct H as [H Hn]. cbn [snd] in Hn. apply negb_true_iff in Hn.
-    apply sort_by_In in H. tauto.
-  - intros [H Hn]. exists (i, t). split; [reflexivity|].
-    apply filter_In. cbn [fst]. split; [|apply Nat.eqb_refl].
-    apply filter_In. cbn [snd]. split; [|rewrite Hn; reflexivity].
-    apply In_sort_by. exact H.
+  intros idx nodes i t. unfold split_nodes, nodes_of. rewrite in_map_iff.
+  intros ([k u] & Hu & H). cbn [snd] in Hu. subst u.
+  apply filter_In in H. destruct H as [H Hk]. cbn [fst] in Hk. apply Nat.eqb_eq in Hk. subst k.
+  apply split_pairs_In in H. exact H.
 Qed.
 
 Theorem split_spec_nodes : forall j idx nodes j',
@@ -731,14 +766,14 @@ Proof.
   fold (split_pairs idx nodes) in Hm. unfold split_nodes.
   set (pairs := split_pairs idx nodes) in *.
   assert (Hs : StronglySorted (fun x y => pair_le x y = true) pairs).
-  { apply filter_SS. apply sort_by_SS; [apply pair_le_total|apply pair_le_trans]. }
+  { apply split_pairs_SS. }
   assert (Hin : forall iu, In iu pairs -> 0 < snd iu /\ snd iu < 1).
-  { intros [i u] Hiu. unfold pairs, split_pairs in Hiu.
-    apply filter_In in Hiu. destruct Hiu as [Hiu Hn].
-    apply sort_by_In in Hiu. apply in_combine_r in Hiu. cbn [snd] in *.
+  { intros [i u] Hiu. unfold pairs in Hiu.
+    apply split_pairs_In in Hiu. destruct Hiu as [Hiu Hn].
+    apply in_combine_r in Hiu. cbn [snd] in *.
     rewrite forallb_forall in Hout. specialize (Hout u Hiu).
     apply negb_true_iff in Hout. apply out01_false in Hout.
-    apply negb_true_iff in Hn. apply near01_false; tauto. }
+    apply near01_false; tauto. }
   assert (F : Forall2i (fun i s ps => subdiv_ts s (nodes_of pairs i) ps) 0 j pieces).
   { apply mapM_Ok_Forall2 in Hm. clear Hout. revert Hl Hm. generalize 0%nat. revert pieces.
     induction j as [|s j IH]; intros pieces k Hl Hm; cbn [length seq combine] in Hm.
